@@ -19,7 +19,7 @@ import ast
 import copy
 import re
 
-from ..core import AnalysisError, assignments, call_name, names_in, short, walk_no_nested
+from ..core import AnalysisError, assignments, call_name, doc_sorted, names_in, short, walk_no_nested
 from ..util import calls_named, kwarg, norm
 
 GB = "molli.descriptor.gridbased"
@@ -64,7 +64,7 @@ def r1_cutoff(chk):
         asg = assignments(f.node)
         qs = [c for c in walk_no_nested(f.node) if isinstance(c, ast.Call) and isinstance(c.func, ast.Attribute) and c.func.attr == "query"]
         chk.require(qs, f"{fname}: KDTree query not found")
-        for i, q in enumerate(sorted(qs, key=lambda c: c.lineno)):
+        for i, q in enumerate(doc_sorted(f.node, qs)):
             branch = "ensemble" if any(isinstance(l, ast.For) and any(x is q for x in ast.walk(l)) for l in walk_no_nested(f.node)) else ("single" if fname == "nearest_atom_index" else "all")
             ub = kwarg(q, "distance_upper_bound")
             key = f"{f.key}:{branch}:bound-from-max_dist"
